@@ -65,6 +65,10 @@ def gen_cases(ctx):
          "decl": {"name": "Core", "tparams": [], "typedoc": None, "members": [
              {"k": "f", "name": "name", "type": "int", "new": False, "def": None}]}}]}
     cases.append(make_case("w1", fixed))
+    # witness of the known finding F_skipWithDef: a left-out field that carries a default
+    cases.append(make_case("w2", {"name": "T", "tparams": [], "typedoc": None, "members": [
+        {"k": "f", "name": "name", "type": "int", "new": False, "def": None},
+        {"k": "f", "name": "_retries", "type": "int", "new": False, "def": "203", "hasdoc": True}]}))
     cases.append(make_case("w0", wit))
     n = ctx.n(400, 4000)
     for i in range(n):
